@@ -8,9 +8,9 @@ from .values import Unsupported
 
 KEYWORDS = {"SELECT", "FROM", "WHERE", "AND", "OR", "NOT", "GROUP", "BY", "ORDER", "LIMIT", "AS", "DESC", "ASC", "CASE",
             "WHEN", "THEN", "ELSE", "END", "INSERT", "REPLACE", "INTO", "VALUES", "TRUE", "FALSE", "NULL", "SUM", "MAX",
-            "MIN", "COUNT", "COALESCE", "IFNULL"}
+            "MIN", "COUNT", "COALESCE", "IFNULL", "ON", "CONFLICT", "DO", "UPDATE", "SET", "NOTHING"}
 
-TOK = re.compile(r"\s*(\?\d+|\d+|[A-Za-z_][A-Za-z_0-9]*|<>|!=|>=|<=|==|=|>|<|\(|\)|,|\*|;)")
+TOK = re.compile(r"\s*(\?\d+|\d+|[A-Za-z_][A-Za-z_0-9]*(?:\.[A-Za-z_][A-Za-z_0-9]*)?|<>|!=|>=|<=|==|=|>|<|\(|\)|,|\*|;)")
 
 # schema of the leases table (pool.rs upgrade_schema_from_no_version); address is the PRIMARY KEY
 COLUMNS = {"address": "text", "chaddr": "blob", "clientid": "blob", "start": "int", "expiry": "int", "options": "blob"}
@@ -198,10 +198,32 @@ class P:
             if not self.accept(","):
                 break
         self.eat(")")
+        upsert = None
+        if self.accept("ON"):
+            self.eat("CONFLICT")
+            self.eat("(")
+            target = [self.eat().lower()]
+            while self.accept(","):
+                target.append(self.eat().lower())
+            self.eat(")")
+            self.eat("DO")
+            if self.accept("NOTHING"):
+                upsert = dict(target=target, sets=None)
+            else:
+                self.eat("UPDATE")
+                self.eat("SET")
+                sets = []
+                while True:
+                    col = self.eat().lower()
+                    self.eat("=")
+                    sets.append((col, self.expr()))
+                    if not self.accept(","):
+                        break
+                upsert = dict(target=target, sets=sets)
         self.accept(";")
         if self.i != len(self.t):
             raise Unsupported(f"SQL: trailing tokens {self.t[self.i:]}")
-        return dict(kind="insert", replace=replace, table=table, cols=cols, vals=vals)
+        return dict(kind="insert", replace=replace, table=table, cols=cols, vals=vals, upsert=upsert)
 
 
 _cache = {}
@@ -247,14 +269,74 @@ def fresh_table(n, tag="r"):
     return rows
 
 
+# unique keys of the leases table, re-read from the DDL text in the current source by extract_schema()
+UNIQUE_KEYS = [[PRIMARY_KEY]]
+
+
+def extract_schema(mir_text):
+    """Read the DDL that creates a fresh lease database from the MIR string constants of pool.rs and set the unique keys.
+    Anything on `leases` beyond CREATE TABLE (with one PRIMARY KEY) / CREATE [UNIQUE] INDEX / ALTER TABLE ADD COLUMN is
+    outside the model => Unsupported."""
+    global UNIQUE_KEYS
+    ddl = []
+    for m in re.finditer(r'const "((?:CREATE|ALTER|DROP)[^"]*)"', mir_text):
+        txt = bytes(m.group(1), "utf-8").decode("unicode_escape")
+        if re.search(r"\bleases\b", txt):
+            ddl.append(" ".join(txt.split()))
+    ddl = sorted(set(ddl))
+    keys = []
+    seen_table = False
+    for d in ddl:
+        mt = re.match(r"^CREATE TABLE (?:IF NOT EXISTS )?leases \((.*)\)$", d, re.I)
+        if mt:
+            body = mt.group(1)
+            pk = re.findall(r"PRIMARY KEY \(([^)]*)\)", body, re.I)
+            inline_pk = re.findall(r"(\w+) \w+[^,]*PRIMARY KEY", re.sub(r"PRIMARY KEY \([^)]*\)", "", body, flags=re.I), re.I)
+            uniq = re.findall(r"UNIQUE \(([^)]*)\)", body, re.I) + [u for u in re.findall(r"(\w+) \w+[^,]*\bUNIQUE\b", body, re.I)]
+            cols = [c.strip().split()[0].lower() for c in re.sub(r"(PRIMARY KEY|UNIQUE) \([^)]*\)", "", body, flags=re.I).split(",") if c.strip()]
+            for c in cols:
+                if c not in COLUMNS:
+                    raise Unsupported(f"SQL schema: unknown column {c} in CREATE TABLE leases")
+            allpk = [[x.strip().lower() for x in p.split(",")] for p in pk] + [[x.lower()] for x in inline_pk]
+            if seen_table and allpk != [[PRIMARY_KEY]]:
+                raise Unsupported("SQL schema: CREATE TABLE variants disagree on the primary key")
+            if allpk != [[PRIMARY_KEY]]:
+                raise Unsupported(f"SQL schema: primary key {allpk} (the model requires PRIMARY KEY (address))")
+            seen_table = True
+            keys += [[x.strip().lower() for x in u.split(",")] for u in uniq]
+            continue
+        mi = re.match(r"^CREATE (UNIQUE )?INDEX (?:IF NOT EXISTS )?\w+ ON leases \(([^)]*)\)$", d, re.I)
+        if mi:
+            if mi.group(1):
+                keys.append([x.strip().lower() for x in mi.group(2).split(",")])
+            continue
+        if re.match(r"^ALTER TABLE leases ADD COLUMN \w+ \w+$", d, re.I):
+            continue
+        raise Unsupported(f"SQL schema statement outside the model: {d[:80]}")
+    if not seen_table:
+        raise Unsupported("SQL schema: CREATE TABLE leases not found in the MIR string constants")
+    for k in keys:
+        for c in k:
+            if c not in ("address", "clientid", "start", "expiry"):
+                raise Unsupported(f"SQL schema: unique key over unmodelled column {c}")
+    UNIQUE_KEYS = [[PRIMARY_KEY]] + [k for k in keys if k != [PRIMARY_KEY]]
+    return ddl, UNIQUE_KEYS
+
+
+def same_key(a, b, key):
+    return z3.And([getattr(a, c) == getattr(b, c) for c in key])
+
+
 def table_invariant(rows):
-    """representation invariant: PRIMARY KEY(address); integer columns were written from u32 values"""
+    """representation invariant: every UNIQUE key of the schema (at least PRIMARY KEY(address)); integer columns were
+    written from u32 values"""
     cs = []
     for i, r in enumerate(rows):
         cs.append(z3.ULE(r.start, z3.BitVecVal(0xFFFFFFFF, 64)))
         cs.append(z3.ULE(r.expiry, z3.BitVecVal(0xFFFFFFFF, 64)))
         for j in range(i):
-            cs.append(z3.Implies(z3.And(r.present, rows[j].present), r.address != rows[j].address))
+            for key in UNIQUE_KEYS:
+                cs.append(z3.Implies(z3.And(r.present, rows[j].present), z3.Not(same_key(r, rows[j], key))))
     return cs
 
 
@@ -331,9 +413,11 @@ def eval_expr(e, row, params, aliases):
                 raise Unsupported("SQL: ordering comparison on TEXT")
             eq = text_eq(a, b)
             return ("bool", eq if op == "=" else z3.Not(eq))
-        # SQLite: values of different storage classes are never equal (INTEGER < TEXT < BLOB)
-        if op == "=":
-            return ("bool", z3.BoolVal(False))
+        # SQLite: values of different storage classes are never equal and order as INTEGER < TEXT < BLOB
+        rank = {"int": 1, "bool": 1, "text": 2, "ctext": 2, "blob": 3}
+        if a[0] in rank and b[0] in rank and rank[a[0]] != rank[b[0]]:
+            lt = rank[a[0]] < rank[b[0]]
+            return ("bool", z3.BoolVal({"=": False, "!=": True, "<": lt, "<=": lt, ">": not lt, ">=": not lt}[op]))
         raise Unsupported(f"SQL: comparison {a[0]} {op} {b[0]}")
     if k == "agg":
         raise Unsupported("SQL: aggregate in row context")
@@ -444,8 +528,10 @@ def select_plan(ast, rows, params):
 
 
 def apply_insert(ast, rows, params, spare_index):
-    """INSERT OR REPLACE on the primary key: returns the new rows (same slots).  `spare_index` names a slot that the
-    caller guarantees to be absent in the pre-state (so a fresh address always finds room)."""
+    """INSERT OR REPLACE / INSERT .. ON CONFLICT(primary key) DO UPDATE: returns the new rows (same slots).
+    `spare_index` names a slot that the caller guarantees to be absent in the pre-state (so a fresh address always finds room)."""
+    if ast.get("upsert"):
+        return apply_upsert(ast, rows, params, spare_index)
     if not ast["replace"]:
         raise Unsupported("SQL: plain INSERT (constraint failure not modelled)")
     vals = {}
@@ -463,11 +549,57 @@ def apply_insert(ast, rows, params, spare_index):
     new = Row(z3.BoolVal(True), addr, vals["clientid"][1], to_int(vals["start"]), to_int(vals["expiry"]))
     matched = [z3.And(r.present, r.address == addr) for r in rows]
     anym = z3.Or(matched)
+    # REPLACE: every row that conflicts with the new row on ANY unique key is deleted before the insert
+    conflict = [z3.And(r.present, z3.Or([same_key(r, new, key) for key in UNIQUE_KEYS])) for r in rows]
     out = []
     for i, r in enumerate(rows):
         m = matched[i]
         if i == spare_index:
             m = z3.Or(m, z3.Not(anym))
-        out.append(Row(z3.If(m, new.present, r.present), z3.If(m, new.address, r.address), z3.If(m, new.clientid, r.clientid),
+        gone = z3.And(conflict[i], z3.Not(m))
+        out.append(Row(z3.If(m, new.present, z3.And(r.present, z3.Not(gone))), z3.If(m, new.address, r.address), z3.If(m, new.clientid, r.clientid),
                        z3.If(m, new.start, r.start), z3.If(m, new.expiry, r.expiry)))
+    return out
+
+
+def apply_upsert(ast, rows, params, spare_index):
+    up = ast["upsert"]
+    if up["target"] != [PRIMARY_KEY]:
+        raise Unsupported(f"SQL: ON CONFLICT target {up['target']}")
+    if len(UNIQUE_KEYS) > 1:
+        raise Unsupported("SQL: upsert with additional unique keys")
+    blank = Row(z3.BoolVal(False), z3.BitVecVal(0, 32), z3.BitVecVal(0, 32), z3.BitVecVal(0, 64), z3.BitVecVal(0, 64))
+    vals = {}
+    for c, e in zip(ast["cols"], ast["vals"]):
+        if c not in COLUMNS:
+            raise Unsupported(f"SQL: unknown column {c}")
+        vals[c] = eval_expr(e, blank, params, {})
+    for need in ("address", "clientid", "start", "expiry"):
+        if need not in vals:
+            raise Unsupported(f"SQL: INSERT without column {need}")
+    addr = vals["address"][1]
+    new = Row(z3.BoolVal(True), addr, vals["clientid"][1], to_int(vals["start"]), to_int(vals["expiry"]))
+    matched = [z3.And(r.present, r.address == addr) for r in rows]
+    anym = z3.Or(matched)
+    out = []
+    for i, r in enumerate(rows):
+        upd = dict(address=r.address, clientid=r.clientid, start=r.start, expiry=r.expiry)
+        if up["sets"] is not None:
+            for col, e in up["sets"]:
+                if col not in COLUMNS:
+                    raise Unsupported(f"SQL: SET of unknown column {col}")
+                if col not in upd:
+                    continue        # unmodelled column (options, chaddr)
+                if e[0] == "col" and e[1].startswith("excluded."):
+                    v = vals[e[1].split(".", 1)[1]]
+                else:
+                    v = eval_expr(e, r, params, {})
+                upd[col] = v[1] if col in ("address", "clientid") else to_int(v)
+        m = matched[i]
+        ins = z3.And(z3.BoolVal(i == spare_index), z3.Not(anym))
+        out.append(Row(z3.Or(r.present, ins),
+                       z3.If(ins, new.address, z3.If(m, upd["address"], r.address)),
+                       z3.If(ins, new.clientid, z3.If(m, upd["clientid"], r.clientid)),
+                       z3.If(ins, new.start, z3.If(m, upd["start"], r.start)),
+                       z3.If(ins, new.expiry, z3.If(m, upd["expiry"], r.expiry))))
     return out
